@@ -48,6 +48,7 @@ type step struct {
 	Res  string           `json:"res"`
 	Cls  string           `json:"cls"`
 	Win  bool             `json:"win"`
+	Force bool            `json:"force"`
 	M    mproj            `json:"m"`
 	TsOf map[string]int64 `json:"tsOf"`
 }
@@ -141,6 +142,8 @@ type run struct {
 	txs     map[string]transaction.Transaction
 	name    map[string]string // real id -> abstract id
 	held    int               // node whose flush is gated (0 = none)
+	group   module.TransactionGroup
+	root    int // model node of the current root tracker (height 0)
 	lists   map[int][]string
 }
 
@@ -172,8 +175,32 @@ func (r *run) start(rootTh int64) error {
 		return err
 	}
 	r.tim = tim
-	r.loggers[1] = tim.NewLogger(module.TransactionGroupNormal, 0, 0)
+	r.loggers[1] = tim.NewLogger(r.group, 0, 0)
 	r.lists[1] = nil
+	r.root = 1
+	return nil
+}
+
+// restart: Term() of the manager (waits for the flush worker), a new manager over the same DB, a new root logger
+func (r *run) restart(node int, th int64) error {
+	r.g.setHold(nil)
+	r.held = 0
+	r.lm.Term()
+	lm, err := txlocator.NewManager(&gatedDB{r.base, r.g}, log.GlobalLogger())
+	if err != nil {
+		return err
+	}
+	r.lm = lm
+	tsc := service.NewTimestampChecker()
+	tsc.SetThreshold(time.Duration(th*r.delta) * time.Microsecond)
+	tim, err := service.NewTXIDManager(lm, tsc, nil)
+	if err != nil {
+		return err
+	}
+	r.tim = tim
+	r.loggers = map[int]service.TXIDLogger{node: tim.NewLogger(r.group, 0, 0)}
+	r.lists[node] = nil
+	r.root = node
 	return nil
 }
 
@@ -203,14 +230,14 @@ func (r *run) project(s txlocator.VerifState) (mproj, error) {
 		p.Locs = append(p.Locs, a)
 	}
 	sort.Strings(p.Locs)
-	for _, l := range s.Cache[module.TransactionGroupNormal] {
+	for _, l := range s.Cache[r.group] {
 		h := int(l.Height)
 		if h == 0 {
-			h = 1 // the root tracker (height 0) is node 1 of the model
+			h = r.root // the root tracker has height 0
 		}
 		p.CacheQ = append(p.CacheQ, h)
 	}
-	mx := s.MaxTSInDB[module.TransactionGroupNormal]
+	mx := s.MaxTSInDB[r.group]
 	if mx%r.delta != 0 {
 		return p, fmt.Errorf("maxTSInDB %d is not a multiple of delta %d", mx, r.delta)
 	}
@@ -264,7 +291,7 @@ type verdict struct {
 }
 
 // runBehaviour steps the real code through one behaviour.
-func runBehaviour(steps []step, delta, salt int64) (v verdict) {
+func runBehaviour(steps []step, delta, salt int64, group string) (v verdict) {
 	v.at = -1
 	if len(steps) == 0 {
 		return
@@ -273,6 +300,9 @@ func runBehaviour(steps []step, delta, salt int64) (v verdict) {
 	if err != nil {
 		v.divergence = "setup: " + err.Error()
 		return
+	}
+	if group == "patch" {
+		r.group = module.TransactionGroupPatch
 	}
 	defer func() {
 		r.g.setHold(nil) // never leave the worker blocked
@@ -303,7 +333,7 @@ func runBehaviour(steps []step, delta, salt int64) (v verdict) {
 			}
 			list := transaction.NewTransactionListFromSlice(r.base, txs)
 			res := "ok"
-			if _, err := lg.Add(list, false); err != nil {
+			if _, err := lg.Add(list, s.Force); err != nil {
 				res = "dup"
 			} else {
 				tsr := service.NewTimestampRange(s.Ts*delta, s.Th*delta)
@@ -353,6 +383,9 @@ func runBehaviour(steps []step, delta, salt int64) (v verdict) {
 			for _, a := range r.lists[s.N] {
 				ids = append(ids, r.txs[a].ID())
 			}
+			if r.group == module.TransactionGroupPatch {
+				ids = nil // the patch group is flushed inside Commit: nothing to hold back
+			}
 			r.g.setHold(ids)
 			r.held = s.N
 			done := make(chan error, 1)
@@ -367,6 +400,11 @@ func runBehaviour(steps []step, delta, salt int64) (v verdict) {
 				v.at, v.divergence = i, fmt.Sprintf("step %d: Commit did not return", i)
 				return
 			}
+		case "restart":
+			if err := r.restart(s.N, s.Th); err != nil {
+				v.at, v.divergence = i, fmt.Sprintf("step %d: restart failed: %v", i, err)
+				return
+			}
 		case "flush":
 			r.g.setHold(nil)
 			r.held = 0
@@ -375,7 +413,7 @@ func runBehaviour(steps []step, delta, salt int64) (v verdict) {
 			var err error
 			tx := r.txs[s.ID]
 			if s.N == 0 {
-				has, err = r.tim.HasRecent(module.TransactionGroupNormal, tx.ID(), tx.Timestamp())
+				has, err = r.tim.HasRecent(r.group, tx.ID(), tx.Timestamp())
 			} else {
 				has, err = r.loggers[s.N].Has(tx.ID(), tx.Timestamp())
 			}
@@ -431,6 +469,7 @@ func tsList(s step) []int64 {
 }
 
 type input struct {
+	Group  string `json:"group"`
 	RootTh int64  `json:"rootTh"`
 	Steps  []step `json:"steps"`
 	Delta  int64  `json:"delta"`
@@ -461,8 +500,8 @@ func TestReplay(t *testing.T) {
 		}
 		steps := append([]step{{Op: "root", Th: in.RootTh}}, in.Steps...)
 		id := fmt.Sprintf("b%d", idx)
-		v := runBehaviour(steps, delta, salt)
-		detail := map[string]interface{}{"behaviour": in.Steps, "rootTh": in.RootTh, "delta": delta, "salt": salt}
+		v := runBehaviour(steps, delta, salt, in.Group)
+		detail := map[string]interface{}{"behaviour": in.Steps, "rootTh": in.RootTh, "delta": delta, "salt": salt, "group": in.Group}
 		nontrivial := false
 		for _, s := range in.Steps {
 			if s.Op == "block" && s.Res != "ok" || s.Op == "has" && s.Res == "true" {
